@@ -1198,7 +1198,7 @@ impl<'t> Ext<'t> {
             text.push_str(&format!("  {name} : REF_TO {};\n", t.name()));
             self.refs.push((name, *t));
         }
-        text.push_str("  xcyc : INT;\n");
+        text.push_str("  xcyc : INT;\n  xk : INT;\n  xg : INT;\n");
         text.push_str("END_VAR\n");
         self.out.main_vars.push_str(&text);
         self.vars.push(XVar {
@@ -1963,26 +1963,104 @@ impl<'t> Ext<'t> {
         format!("{} := {};", ws[self.r.pick(ws.len())], text)
     }
 
-    fn stmt(&mut self, out: &mut Vec<String>) {
-        if self.r.chance(1, 2) {
-            // guard by cycle number or a condition so that later cycles take other paths
-            let cond = if self.r.flag() {
-                format!("xcyc {} {}", [">", "=", "<"][self.r.pick(3)], int_lit(T::Int, self.r.pick(5) as i128))
-            } else {
-                self.expr(T::Bool, 2)
-            };
-            let s = self.simple_stmt();
-            out.push(format!("IF {cond} THEN"));
-            out.push(format!("  {s}"));
-            if self.r.flag() {
-                let s2 = self.simple_stmt();
-                out.push("ELSE".into());
-                out.push(format!("  {s2}"));
-            }
-            out.push("END_IF;".into());
+    /// A condition: on the cycle counter (another branch is taken in every cycle) or random.
+    fn cyc_cond(&mut self, k: usize) -> String {
+        if self.r.chance(2, 3) {
+            format!("xcyc {} {}", ["=", ">", "<"][self.r.weighted(&[4, 1, 1])], int_lit(T::Int, 1 + ((k + self.r.pick(2)) % 5) as i128))
         } else {
-            let s = self.simple_stmt();
-            out.push(s);
+            self.expr(T::Bool, 2)
+        }
+    }
+
+    fn stmt(&mut self, out: &mut Vec<String>) {
+        // compound wrappers put IF / ELSIF / ELSE, CASE / ELSE and loop contexts into code that
+        // is executed early in Main, with conditions on the cycle counter
+        match self.r.weighted(&[8, 4, 4, 3, 2, 2, 2]) {
+            1 => {
+                self.feat("wrap:if_else");
+                let cond = self.cyc_cond(0);
+                let s = self.simple_stmt();
+                out.push(format!("IF {cond} THEN"));
+                out.push(format!("  {s}"));
+                if self.r.flag() {
+                    let s2 = self.simple_stmt();
+                    out.push("ELSE".into());
+                    out.push(format!("  {s2}"));
+                }
+                out.push("END_IF;".into());
+            }
+            2 => {
+                self.feat("wrap:if_elsif_else");
+                let n = 1 + self.r.pick(3);
+                let c0 = self.cyc_cond(0);
+                let s0 = self.simple_stmt();
+                out.push(format!("IF {c0} THEN"));
+                out.push(format!("  {s0}"));
+                for k in 0..n {
+                    let c = self.cyc_cond(k + 1);
+                    let s = self.simple_stmt();
+                    out.push(format!("ELSIF {c} THEN"));
+                    out.push(format!("  {s}"));
+                }
+                if self.r.chance(2, 3) {
+                    let s = self.simple_stmt();
+                    out.push("ELSE".into());
+                    out.push(format!("  {s}"));
+                }
+                out.push("END_IF;".into());
+            }
+            3 => {
+                self.feat("wrap:case_else");
+                let sel = if self.r.chance(2, 3) { "xcyc".to_string() } else { self.expr(T::Int, 1) };
+                out.push(format!("CASE {sel} OF"));
+                let s = self.simple_stmt();
+                out.push(format!("  1: {s}"));
+                let s = self.simple_stmt();
+                out.push(format!("  2, 3: {s}"));
+                if self.r.flag() {
+                    let s = self.simple_stmt();
+                    out.push(format!("  4..6: {s}"));
+                }
+                if self.r.chance(2, 3) {
+                    let s = self.simple_stmt();
+                    out.push("ELSE".into());
+                    out.push(format!("  {s}"));
+                }
+                out.push("END_CASE;".into());
+            }
+            4 => {
+                self.feat("wrap:for");
+                let (from, to, by) = [(0, 2, 1), (3, 1, -1), (0, 4, 2), (1, 1, 1)][self.r.pick(4)];
+                let s = self.simple_stmt();
+                out.push(format!("FOR xk := {} TO {} BY {} DO", int_lit(T::Int, from), int_lit(T::Int, to), int_lit(T::Int, by)));
+                out.push(format!("  {s}"));
+                out.push("END_FOR;".into());
+            }
+            5 => {
+                self.feat("wrap:while");
+                let c = self.cyc_cond(0);
+                let s = self.simple_stmt();
+                out.push(format!("xg := {};", int_lit(T::Int, 0)));
+                out.push(format!("WHILE (xg < {}) AND ({c} OR (xg < {})) DO", int_lit(T::Int, 3), int_lit(T::Int, 1)));
+                out.push(format!("  xg := xg + {};", int_lit(T::Int, 1)));
+                out.push(format!("  {s}"));
+                out.push("END_WHILE;".into());
+            }
+            6 => {
+                self.feat("wrap:repeat");
+                let c = self.cyc_cond(0);
+                let s = self.simple_stmt();
+                out.push(format!("xg := {};", int_lit(T::Int, 0)));
+                out.push("REPEAT".into());
+                out.push(format!("  xg := xg + {};", int_lit(T::Int, 1)));
+                out.push(format!("  {s}"));
+                out.push(format!("UNTIL (xg >= {}) OR {c}", int_lit(T::Int, 2)));
+                out.push("END_REPEAT;".into());
+            }
+            _ => {
+                let s = self.simple_stmt();
+                out.push(s);
+            }
         }
     }
 
